@@ -1,3 +1,4 @@
 pub mod ast;
 pub mod build;
+pub mod mutate;
 pub mod sem;
